@@ -1,7 +1,9 @@
 """C06 implementation drivers: real NetworkServiceAccessPoint / NetworkServiceElement / vlan.Network / vlan.Node
 objects under a virtual clock and a step watchdog, with an independent NPDU decoder for the frames seen on
 each LAN.  Nothing here knows about the Coq model."""
-import sys
+import sys, logging
+
+logging.disable(logging.CRITICAL)      # silences the 'path error' warnings of process_npdu
 
 NOW = [0.0]
 _TM = [None]
@@ -41,6 +43,23 @@ def drain(limit):
             tm.tasks[:] = []
             raise Watchdog(steps)
     return steps
+
+
+def drain_upto(limit):
+    """run at most `limit` zero-delay tasks FIFO; returns the number still queued"""
+    task, bcore = _modules()
+    tm = _TM[0]
+    for _ in range(limit):
+        t, delta = tm.get_next_task()
+        if t is None:
+            return 0
+        tm.process_task(t)
+    return len(tm.tasks)
+
+
+def pending_tasks():
+    _modules()
+    return len(_TM[0].tasks)
 
 
 def reset_tasks():
